@@ -47,7 +47,10 @@ Definition sorted_by {A K} (o : oracle) (site : nat) (key : A -> K) (kleb : K ->
 
 (* ---------------------------------------------------------------- the raw network *)
 
-Record rattr := { ra_h : N; ra_name : string; ra_eid : string }.
+(* an attribute (as referenced by an assignment); [ra_vals]: the value map of an enum attribute
+   (value -> index), in arbitrary order *)
+Record rattr := { ra_h : N; ra_name : string; ra_eid : string; ra_vals : list (Z * string) }.
+Record rbuilder := { bl_h : N; bl_name : string; bl_ops : list (Z * Z * Z) }.
 (* a receiver: node interface [rr_num] of the node [rr_h] (node id, node attribute assignments) *)
 Record rrecv := { rr_h : N; rr_name : string; rr_eid : string; rr_num : Z; rr_id : Z;
                   rr_attrs : list rattr }.
@@ -63,7 +66,7 @@ Record rmsg := { rm_h : N; rm_eid : string; rm_attrs : list rattr; rm_recv : lis
                  rm_size : Z; rm_byteorder : string; rm_cycle : Z; rm_sigs : list rsig }.
 Record rnif := { rn_h : N; rn_attrs : list rattr; rn_name : string; rn_desc : string; rn_id : Z;
                  rn_msgs : list rmsg }.
-Record rbus := { rb_h : N; rb_attrs : list rattr; rb_builder : option (N * string);
+Record rbus := { rb_h : N; rb_attrs : list rattr; rb_builder : option rbuilder;
                  rb_name : string; rb_desc : string; rb_baud : Z; rb_nifs : list rnif }.
 Record rnet := { rt_name : string; rt_desc : string; rt_buses : list rbus }.
 
@@ -75,14 +78,19 @@ Definition site_msgs := 2%nat.
 Definition site_recv := 3%nat.
 Definition site_attrs := 4%nat.
 Definition site_values := 5%nat.
+Definition site_attr_values := 6%nat.
 
 Definition attr_key (a : rattr) := (ra_name a, ra_eid a).
 Definition recv_key (r : rrecv) := (rr_name r, rr_eid r).
 Definition msg_key (m : rmsg) := (rm_id m, (rm_name m, rm_eid m)).
 
 (* withAttributes.AttributeAssignments *)
+(* EnumAttribute.Values: ranges over the value map and stores every value at its index *)
+Definition walk_attr (o : oracle) (a : rattr) : rattr :=
+  {| ra_h := ra_h a; ra_name := ra_name a; ra_eid := ra_eid a;
+     ra_vals := sorted_by o site_attr_values (@fst Z string) Z.leb (ra_vals a) |}.
 Definition get_attrs (o : oracle) (l : list rattr) : list rattr :=
-  sorted_by o site_attrs attr_key str2_leb l.
+  sorted_by o site_attrs attr_key str2_leb (map (walk_attr o) l).
 (* SignalEnum.Values *)
 Definition walk_enum (o : oracle) (e : sigenum) : sigenum :=
   {| se_id := se_id e; se_name := se_name e; se_desc := se_desc e; se_maxindex := se_maxindex e;
@@ -162,8 +170,16 @@ Definition clear_spaces (s : string) : string :=
 Inductive ev :=
 | EBus (h : N) | ENif (node : N) | EMsg (h : N) | ESig (h : N)
 | EAsg (a : rattr)                     (* saver: attribute assignment (its attribute) *)
-| EAsgN (kind : nat) (owner : N) (name : string)  (* DBC: BA_ line: 0 network 1 node 2 message 3 signal, owner, clearSpaces name *)
-| EDef (kind : nat) (name : string)   (* DBC: BA_DEF_ line *)
+| EAsgN (kind : nat) (owner : N) (a : rattr)  (* DBC: BA_ line: 0 network 1 node 2 message 3 signal, owner, attribute *)
+| EDef (kind : nat) (name : string) (vals : list string)  (* DBC: BA_DEF_ line (clearSpaces name, enum values) *)
+| EComment (kind : nat) (owner : N)   (* DBC: CM_ line *)
+| EValEnc (sig : N) (idx : list Z)    (* DBC: VAL_ line of an enum signal: value indexes in order *)
+| EExt (muxor muxed : string) (ranges : list (Z * Z))  (* DBC: SG_MUL_VAL_ line *)
+| EOp (kind from len : Z)             (* saver: CAN-ID builder operation *)
+| EPay (sig : N) (rel : Z)            (* saver: payload reference (signal, relative start) *)
+| EFixed (sig : N)                    (* saver: fixed signal id of a multiplexer *)
+| EGroup                              (* saver: next group payload of a multiplexer *)
+| EAttrVal (v : string)               (* saver: value of an enum attribute *)
 | ERecvN (name : string)              (* DBC: receiver written on the signal lines of a message *)
 | EUse (e : sigenum)                  (* DBC: exportEnumSignal registers the enum (internal) *)
 | ERecv (node : N) (num : Z)
@@ -183,13 +199,30 @@ Definition mem_str (x : string) (l : list string) : bool := existsb (String.eqb 
 
 (* ---------------------------------------------------------------- saver skeleton *)
 
-(* saveSignal / saveMultiplexerSignal: a fixed signal is saved the first time it is met, every
-   other member of a group is saved once per group it belongs to *)
+Definition rsig_rel (s : rsig) : Z :=
+  match s with RStd _ _ _ _ r _ _ => r | REnum _ _ _ _ r _ _ => r | RMux _ _ _ _ r _ _ _ _ => r end.
+Definition rsig_desc (s : rsig) : string :=
+  match s with RStd _ _ _ d _ _ _ => d | REnum _ _ _ d _ _ _ => d | RMux _ _ _ d _ _ _ _ _ => d end.
+Definition is_mux (s : rsig) : bool := match s with RMux _ _ _ _ _ _ _ _ _ => true | _ => false end.
+
+(* saveSignalLayout: one reference per signal of the layout, in layout order *)
+Definition pay_refs (l : list rsig) : list ev := map (fun x => EPay (sig_h x) (rsig_rel x)) l.
+
+(* first occurrences, by handle *)
+Fixpoint dedup_N (seen : list N) (l : list N) : list N :=
+  match l with
+  | [] => []
+  | x :: r => if mem_N x seen then dedup_N seen r else x :: dedup_N (x :: seen) r
+  end.
+
+(* saveSignal / saveMultiplexerSignal (events in the field order of the saved message: the
+   multiplexed signals, the fixed signal ids, the group payloads): a fixed signal is saved the first
+   time it is met, every other member of a group is saved once per group it belongs to *)
 Fixpoint save_sig (s : rsig) : list ev :=
   (ESig (sig_h s) :: map EAsg (sig_attrs s))
   ++ match s with
      | RMux _ _ _ _ _ _ _ fx groups =>
-         (fix sg (seen : list N) (gs : list (list rsig)) : list ev :=
+         ((fix sg (seen : list N) (gs : list (list rsig)) : list ev :=
             match gs with
             | [] => []
             | g :: r =>
@@ -204,12 +237,15 @@ Fixpoint save_sig (s : rsig) : list ev :=
                      end) seen g in
                 (fst res ++ sg (snd res) r)%list
             end) [] groups
+          ++ map EFixed (dedup_N [] (filter (fun h => mem_N h fx) (map sig_h (List.concat groups))))
+          ++ flat_map (fun g => EGroup :: pay_refs g) groups)%list
      | _ => []
      end.
 
 Definition save_msg (m : rmsg) : list ev :=
   (EMsg (rm_h m) :: map EAsg (rm_attrs m))
   ++ flat_map save_sig (rm_sigs m)
+  ++ pay_refs (rm_sigs m)
   ++ map (fun r => ERecv (rr_h r) (rr_num r)) (rm_recv m).
 Definition save_nif (x : rnif) : list ev := ENif (rn_h x) :: flat_map save_msg (rn_msgs x).
 Definition save_bus (b : rbus) : list ev :=
@@ -218,8 +254,9 @@ Definition save_bus (b : rbus) : list ev :=
 (* referenced entities in order of first use *)
 Definition sigs_of_rnet (r : rnet) : list rsig :=
   flat_map rm_sigs (flat_map rn_msgs (flat_map rb_nifs (rt_buses r))).
-Definition builders_used (r : rnet) : list (N * string) :=
+Definition builders_used (r : rnet) : list rbuilder :=
   flat_map (fun b => match rb_builder b with Some x => [x] | None => [] end) (rt_buses r).
+
 (* nodes: the node of every interface, then (81f8653) the node of every receiver of its messages *)
 Record rnode := { nd_h : N; nd_id : Z; nd_attrs : list rattr }.
 Definition nodes_used (r : rnet) : list rnode :=
@@ -240,8 +277,8 @@ Definition save_skel (r : rnet) : list ev :=
   let nodes := flat_map (fun x => ERef 1 (nd_h x) :: map EAsg (nd_attrs x)) (save_nodes r) in
   let n := to_net r in
   (body
-   ++ map (fun x => ERef 0 (fst x))
-        (isort (fun a b => String.leb (snd a) (snd b)) (dedup (@fst N string) [] (builders_used r)))
+   ++ flat_map (fun x => ERef 0 (bl_h x) :: map (fun op => EOp (fst (fst op)) (snd (fst op)) (snd op)) (bl_ops x))
+        (isort (fun a b => String.leb (bl_name a) (bl_name b)) (dedup bl_h [] (builders_used r)))
    ++ nodes
    ++ map (fun t => ERef 2 (st_id t))
         (isort (fun a b => String.leb (st_name a) (st_name b)) (dedup st_id [] (all_types n)))
@@ -249,7 +286,7 @@ Definition save_skel (r : rnet) : list ev :=
         (isort (fun a b => String.leb (su_name a) (su_name b)) (dedup su_id [] (all_units n)))
    ++ flat_map (fun e => ERef 4 (se_id e) :: map (fun v => EVal (ev_index v)) (se_values e))
         (isort (fun a b => String.leb (se_name a) (se_name b)) (dedup se_id [] (all_enums n)))
-   ++ map (fun a => ERef 5 (ra_h a))
+   ++ flat_map (fun a => ERef 5 (ra_h a) :: map (fun v => EAttrVal (snd v)) (ra_vals a))
         (isort (fun a b => String.leb (ra_name a) (ra_name b))
            (dedup ra_h [] (attrs_in (body ++ nodes)))))%list.
 
@@ -257,14 +294,58 @@ Definition save_raw (o : oracle) (r : rnet) : list ev := save_skel (walk o r).
 
 (* ---------------------------------------------------------------- DBC skeleton *)
 
-(* exportSignal / exportMultiplexerSignal: a multiplexed signal is exported the first time its
-   name is met while walking the groups *)
-Fixpoint dbc_sig (s : rsig) : list ev :=
-  (map (fun a => EAsgN 3 (sig_h s) (clear_spaces (ra_name a))) (sig_attrs s) ++ [ESig (sig_h s)]
-   ++ match s with REnum _ _ _ _ _ _ en => [EUse en] | _ => [] end)
+Definition cname (s : rsig) : string := clear_spaces (rsig_name s).
+
+(* group ids in which a (sanitised) name occurs, one per occurrence (two signals of one group whose
+   names collide after clearSpaces repeat the id); consecutive ids are merged into ranges *)
+Fixpoint groups_of (cn : string) (gid : Z) (gs : list (list rsig)) : list Z :=
+  match gs with
+  | [] => []
+  | g :: r => (map (fun _ => gid) (filter (fun x => String.eqb (cname x) cn) g)
+               ++ groups_of cn (gid + 1) r)%list
+  end.
+Fixpoint ranges_aux (from curr : Z) (rest : list Z) : list (Z * Z) :=
+  match rest with
+  | [] => [(from, curr)]
+  | next :: r => if next =? curr + 1 then ranges_aux from next r
+                 else (from, curr) :: ranges_aux next next r
+  end.
+Definition ranges (ids : list Z) : list (Z * Z) :=
+  match ids with [] => [] | x :: r => ranges_aux x x r end.
+Fixpoint dedup_str (seen : list string) (l : list string) : list string :=
+  match l with
+  | [] => []
+  | x :: r => if mem_str x seen then dedup_str seen r else x :: dedup_str (x :: seen) r
+  end.
+
+(* the SG_MUL_VAL_ entries a multiplexer adds after its multiplexed signals were exported *)
+Definition ext_events (nested0 : bool) (muxname : string) (groups : list (list rsig)) : list ev :=
+  let all := List.concat groups in
+  let nested := orb nested0 (existsb is_mux all) in
+  let names := dedup_str [] (map cname all) in
+  let extended := existsb (fun cn => Nat.ltb 1 (List.length (groups_of cn 0 groups))) names in
+  if andb (negb extended) (negb nested) then []
+  else flat_map (fun cn =>
+         let ids := groups_of cn 0 groups in
+         if andb (negb nested) (Nat.eqb (List.length ids) 1) then []
+         else [EExt (clear_spaces muxname) cn (ranges ids)]) names.
+
+Definition comment_ev (kind : nat) (owner : N) (desc : string) : list ev :=
+  if String.eqb desc "" then [] else [EComment kind owner].
+
+(* exportSignal / exportMultiplexerSignal: [muxed]: the signal is held by a multiplexer;
+   [multi]: the message has more than one top-level multiplexer.  A multiplexed signal is exported
+   the first time its clearSpaces name is met while walking the groups. *)
+Fixpoint dbc_sig (muxed multi : bool) (s : rsig) : list ev :=
+  (comment_ev 3 (sig_h s) (rsig_desc s)
+   ++ map (fun a => EAsgN 3 (sig_h s) a) (sig_attrs s) ++ [ESig (sig_h s)]
+   ++ match s with
+      | REnum _ _ _ _ _ _ en => [EUse en; EValEnc (sig_h s) (map ev_index (se_values en))]
+      | _ => []
+      end)
   ++ match s with
-     | RMux _ _ _ _ _ _ _ _ groups =>
-         (fix dg (seen : list string) (gs : list (list rsig)) : list ev :=
+     | RMux _ _ n _ _ _ _ _ groups =>
+         ((fix dg (seen : list string) (gs : list (list rsig)) : list ev :=
             match gs with
             | [] => []
             | g :: r =>
@@ -273,24 +354,28 @@ Fixpoint dbc_sig (s : rsig) : list ev :=
                      match l with
                      | [] => ([], seen)
                      | x :: r' =>
-                         if mem_str (clear_spaces (rsig_name x)) seen then dl seen r'
-                         else let rest := dl (clear_spaces (rsig_name x) :: seen) r' in
-                              ((dbc_sig x ++ fst rest)%list, snd rest)
+                         if mem_str (cname x) seen then dl seen r'
+                         else let rest := dl (cname x :: seen) r' in
+                              ((dbc_sig true multi x ++ fst rest)%list, snd rest)
                      end) seen g in
                 (fst res ++ dg (snd res) r)%list
             end) [] groups
+          ++ ext_events (orb muxed multi) n groups)%list
      | _ => []
      end.
 
 Definition dbc_msg (m : rmsg) : list ev :=
-  (map (fun a => EAsgN 2 (rm_h m) (clear_spaces (ra_name a))) (rm_attrs m) ++ [EMsg (rm_h m)]
+  let multi := Nat.ltb 1 (List.length (filter is_mux (rm_sigs m))) in
+  (comment_ev 2 (rm_h m) (rm_desc m)
+   ++ map (fun a => EAsgN 2 (rm_h m) a) (rm_attrs m) ++ [EMsg (rm_h m)]
    ++ match rm_sigs m with
       | [] => []
       | _ => map (fun rc => ERecvN (clear_spaces (rr_name rc))) (rm_recv m)
       end
-   ++ flat_map dbc_sig (rm_sigs m))%list.
+   ++ flat_map (dbc_sig false multi) (rm_sigs m))%list.
 Definition dbc_nif (x : rnif) : list ev :=
-  (map (fun a => EAsgN 1 (rn_h x) (clear_spaces (ra_name a))) (rn_attrs x) ++ [ENif (rn_h x)]
+  (comment_ev 1 (rn_h x) (rn_desc x)
+   ++ map (fun a => EAsgN 1 (rn_h x) a) (rn_attrs x) ++ [ENif (rn_h x)]
    ++ flat_map dbc_msg (rn_msgs x))%list.
 
 Local Open Scope string_scope.
@@ -303,27 +388,57 @@ Local Close Scope string_scope.
 Definition enums_in (evs : list ev) : list sigenum :=
   flat_map (fun e => match e with EUse x => [x] | _ => [] end) evs.
 
-(* exporter.exportBus: the walk, then the value tables in order of first use *)
 (* attribute definitions: the first attribute met for every (kind, clearSpaces name) *)
-Fixpoint dedup_defs (seen : list (nat * string)) (l : list (nat * string)) : list (nat * string) :=
+Fixpoint dedup_defs (seen : list (nat * string)) (l : list (nat * rattr)) : list (nat * rattr) :=
   match l with
   | [] => []
   | x :: r =>
-      if existsb (fun y => andb (Nat.eqb (fst x) (fst y)) (String.eqb (snd x) (snd y))) seen
-      then dedup_defs seen r else x :: dedup_defs (x :: seen) r
+      let k := (fst x, clear_spaces (ra_name (snd x))) in
+      if existsb (fun y => andb (Nat.eqb (fst k) (fst y)) (String.eqb (snd k) (snd y))) seen
+      then dedup_defs seen r else x :: dedup_defs (k :: seen) r
   end.
-Definition asg_keys (evs : list ev) : list (nat * string) :=
-  flat_map (fun e => match e with EAsgN k _ n => [(k, n)] | _ => [] end) evs.
+Definition asg_keys (evs : list ev) : list (nat * rattr) :=
+  flat_map (fun e => match e with EAsgN k _ a => [(k, a)] | _ => [] end) evs.
 
+(* exporter.exportBus: the walk, the attribute definitions, the value tables in order of first use *)
 Definition dbc_skel (b : rbus) : list ev :=
-  let body := (map (fun a => EAsgN 0 (rb_h b) (clear_spaces (ra_name a))) (rb_attrs b)
+  let body := (comment_ev 0 (rb_h b) (rb_desc b)
+               ++ map (fun a => EAsgN 0 (rb_h b) a) (rb_attrs b)
                ++ flat_map dbc_nif (rb_nifs b))%list in
   (body
-   ++ map (fun p => EDef (fst p) (snd p)) (dedup_defs [] (asg_keys body))
+   ++ map (fun p => EDef (fst p) (clear_spaces (ra_name (snd p))) (map snd (ra_vals (snd p))))
+        (dedup_defs [] (asg_keys body))
    ++ map (fun e => ELab (enum_label e)) (dedup se_id [] (enums_in body)))%list.
 
 (* ExportBus for every bus of the network, in Buses() order *)
 Definition dbc_raw (o : oracle) (r : rnet) : list (list ev) := map dbc_skel (rt_buses (walk o r)).
+
+(* ---------------------------------------------------------------- record content *)
+(* What the exporters copy into each emitted record besides the repeated fields above: scalar
+   fields of the entity itself.  These functions take NO oracle: the content of a record is a
+   function of the entity alone, so the byte-level claim rests only on the encoders (proto.Marshal
+   without map fields, dbc.Write) being functions of the record tree. *)
+Inductive record :=
+| RecBus (name desc : string) (baud : Z) (builder : option N)
+| RecNode (name desc : string) (id : Z)
+| RecMsg (name desc eid : string) (static : bool) (canid id size : Z) (byteorder : string) (cycle : Z)
+| RecSig (name desc : string) (rel : Z) (kind : nat).
+Definition record_of_bus (b : rbus) : record :=
+  RecBus (rb_name b) (rb_desc b) (rb_baud b) (match rb_builder b with Some x => Some (bl_h x) | None => None end).
+Definition record_of_nif (x : rnif) : record := RecNode (rn_name x) (rn_desc x) (rn_id x).
+Definition record_of_msg (m : rmsg) : record :=
+  RecMsg (rm_name m) (rm_desc m) (rm_eid m) (rm_static m) (rm_canid m) (rm_id m) (rm_size m)
+    (rm_byteorder m) (rm_cycle m).
+Definition record_of_sig (s : rsig) : record :=
+  RecSig (rsig_name s) (rsig_desc s) (rsig_rel s)
+    (match s with RStd _ _ _ _ _ _ _ => 0 | REnum _ _ _ _ _ _ _ => 1 | RMux _ _ _ _ _ _ _ _ _ => 2 end)%nat.
+(* all records in emission order *)
+Definition records_of (r : rnet) : list record :=
+  flat_map (fun b => record_of_bus b
+     :: flat_map (fun x => record_of_nif x
+          :: flat_map (fun m => record_of_msg m :: map record_of_sig (rm_sigs m)) (rn_msgs x)) (rb_nifs b))
+    (rt_buses r).
+Definition records_raw (o : oracle) (r : rnet) : list record := records_of (walk o r).
 
 (* ExportNetwork: one file per bus, each the ExportBus output of that bus, in Buses() order.  The
    goroutines that write the files (and their number) are not in the model: the number of CPUs is
@@ -357,7 +472,8 @@ Definition changes_only (evs : list hev) : list hev :=
 Fixpoint nodupb {A} (eqb : A -> A -> bool) (l : list A) : bool :=
   match l with [] => true | x :: r => andb (negb (existsb (eqb x) r)) (nodupb eqb r) end.
 
-Definition wf_attrsb (l : list rattr) : bool := nodupb String.eqb (map ra_eid l).
+Definition wf_attrsb (l : list rattr) : bool :=
+  andb (nodupb String.eqb (map ra_eid l)) (forallb (fun a => nodupb Z.eqb (map (@fst Z string) (ra_vals a))) l).
 Definition wf_enumb (e : sigenum) : bool := nodupb Z.eqb (map ev_index (se_values e)).
 Fixpoint wf_sigb (s : rsig) : bool :=
   match s with
